@@ -143,6 +143,16 @@ def body_E1(ctx):
     sh = ctx.shard
     logger = MemoryLogger()
     _output._DEFAULT_LOGGER = logger
+    pre = ctx.choose(3, "logger history before the scenario")
+    if pre >= 1:
+        # earlier, conforming use of the same logger: some messages, an explicit validate(), a reset()
+        MT.log(i=1, s="x", n=2.5)
+        with AT(i=1, s=None) as a0:
+            a0.add_success_fields(n=0)
+        logger.validate()
+        if pre == 2:
+            logger.validate()  # validating twice must be harmless
+        logger.reset()
     kind = ["message", "action-ok", "action-failed", "action-failed-extractor", "traceback", "nested"][ctx.choose(6, "what is logged")]
     dev = ["none", "drop", "add", "wrong-type", "validator-rejected", "not-encodable", "non-str-key"][ctx.choose(7, "deviation")]
 
@@ -321,7 +331,7 @@ OBLIGATIONS = [
        bounds={"quick": "<= 3 declared fields each present/absent; one of them (every choice) carries an arbitrary value over int|str|float(non-NaN)|bool|None, the others a conforming constant; type field correct or any text of length <= 3; status correct/bogus; one undeclared key; the three reserved keys; 4 serializers (message, action start/success/failure)"}),
     Ob("E1", E1, body_E1, "X", desc="library-emitted typed messages validate; each single deviation is reported; unflushed tracebacks fail first", functions=["MemoryLogger.write", "MemoryLogger._validate_message", "MemoryLogger.validate", "MemoryLogger.flushTracebacks", "check_for_errors", "MessageType.log", "ActionType.__call__"],
        timeout={"quick": 100, "thorough": 300}, twin=[{"twin_label": "deviation-nested"}],
-       bounds={"quick": "6 logging scenarios x 7 deviation kinds (42 combinations, inapplicable ones skipped)"}),
+       bounds={"quick": "3 logger histories (fresh / validated and reset / validated twice and reset) x 6 logging scenarios x 7 deviation kinds (inapplicable ones skipped)"}),
     Ob("E2", E2, body_E2, "X", desc="capture_logging / validate_logging on real unittest.TestCase methods: default logger restored for 7 outcomes", functions=["capture_logging", "validate_logging", "swap_logger", "check_for_errors"],
        timeout={"quick": 100, "thorough": 300}, bounds={"quick": "7 test outcomes (pass, fail, error, skip, error in the assertion callback, invalid logging, unflushed traceback) x 2 decorators"}),
 ]
